@@ -744,9 +744,17 @@ theorem forLoop_succ {n : Nat} (ih : AllSat T cfg g L n) (key value : Bytes) (bo
     refine sat_bind (sat_modifyCur ?_) fun _ _ => ?_
     · intro fr hfr
       refine ⟨envOK_set ?_ _ (valOK_loopRecord _ _ _ _ _ _ hp), hfr.2.1, hfr.2.2⟩
+      have hb : ∀ kk : Val, ValOK L kk → ValOK L (bindItem kk) := by
+        intro kk hk
+        unfold bindItem
+        split
+        · exact hk
+        · exact valOK_boxed_unsafe hk
       split
-      · exact envOK_set (envOK_set hfr.1 _ (valOK_boxed_unsafe hkv.1)) _ (valOK_boxed_unsafe (hkv.2 _ rfl))
-      · exact envOK_set hfr.1 _ (valOK_boxed_unsafe hkv.1)
+      · split
+        · exact envOK_set hfr.1 _ (hb _ hkv.1)
+        · exact envOK_set (envOK_set hfr.1 _ (hb _ hkv.1)) _ (valOK_boxed_unsafe (hkv.2 _ rfl))
+      · exact envOK_set hfr.1 _ (hb _ hkv.1)
     · refine sat_bind (ih.execNodes _ hb) fun _ _ => ?_
       exact ih.forLoop _ _ _ _ _ _ _ _ _ hb hp (fun it h => hi it (List.mem_cons_of_mem _ h))
 
